@@ -31,8 +31,8 @@ class LH(progx.InlineHooks):
         return NotImplemented
 
     def binary(self, op, a, b, e):
-        if op in ("==", "!=") and isinstance(a, tuple) and isinstance(b, tuple) and a and b and a[0] == "enum" and b[0] == "enum":
-            return (a[1] == b[1]) == (op == "==")
+        if op in ("==", "!=") and isinstance(a, tuple) and isinstance(b, tuple) and a and b and a[0] == "enum" and b[0] == "enum" and (a[1] != b[1] or not (a[2] or b[2])):
+            return (a[1] == b[1]) == (op == "==")       # different variants, or the same payload-free variant (payloads: general rules)
         return progx.InlineHooks.binary(self, op, a, b, e)
 
     def call(self, p, args, e):
@@ -83,9 +83,31 @@ def make_state(ctx, fopen, bopen, twin=None):
     return ld, f0, b0
 
 
-def instruction(op):
+KIND_AS_OPERAND = {"LiteralInteger": ["LiteralBit32"], "LiteralContextDependentNumber": ["LiteralBit32"], "LiteralFloat": ["LiteralBit32"],
+                   "PairLiteralIntegerIdRef": ["LiteralBit32", "IdRef"], "PairIdRefLiteralInteger": ["IdRef", "LiteralBit32"], "PairIdRefIdRef": ["IdRef", "IdRef"]}
+
+
+def instruction(op, ctx=None):
+    """an instruction of the opcode shaped after its grammar row: a result type / result id where the row has one, one operand per
+    required or optional logical operand and two per repeated one, each of the row's kind with an unknown payload.  (Where the
+    instruction ends up must not depend on a payload: a comparison of one with a particular value is undecided and reported.)"""
+    from ..model import core_row
+    row = core_row(ctx, op) if ctx is not None else None
+    ops, rt, rid = [], NONE, NONE
+    n = 0
+    for kind, quant in (row or {}).get("operands") or []:
+        if kind == "IdResultType":
+            rt = ("some", ("id", "RESULT_TYPE"))
+            continue
+        if kind == "IdResult":
+            rid = ("some", ("id", "RESULT_ID"))
+            continue
+        for _rep in range(2 if quant == "ZeroOrMore" else 1):
+            for variant in KIND_AS_OPERAND.get(kind, [kind]):
+                ops.append(("enum", "Operand::" + variant, [("arg", op, n)]))
+                n += 1
     return ("struct", "Instruction", {"class": ("struct", "Instruction", {"opcode": ("enum", "Op::" + op, []), "opname": ("str", op), "capabilities": ("list", []), "extensions": ("list", []), "operands": ("list", [("sym", "LOGICAL_OPERAND")])}),
-                                      "result_type": NONE, "result_id": NONE, "operands": ("list", [])})
+                                      "result_type": rt, "result_id": rid, "operands": ("list", ops)})
 
 
 def _find(obj, inst, prefix, out, seen):
@@ -107,7 +129,7 @@ def _find(obj, inst, prefix, out, seen):
 
 def run(ctx, fname, opcode, fopen, bopen):
     f = ctx.rspirv.fn(LDR, fname, "Loader", "Consumer")
-    inst = instruction(opcode) if opcode is not None else None
+    inst = instruction(opcode, ctx) if opcode is not None else None
     ld, f0, b0 = make_state(ctx, fopen, bopen, inst)
     h = LH(ctx)
     ev = progx.make(h, "Loader::" + fname)
